@@ -9,9 +9,11 @@ def cubes(tier):
         out = [dict(cls=c, nsteps=1, a1=a) for c in ("local", "base") for a in range(NACT)]
         out += [dict(cls="local", nsteps=2, a1=a, a2=b, _w=8) for a, b in ((3, 9), (5, 2), (6, 0), (0, 11))]
         out += [dict(cls="local", nsteps=1, a1=a, upload=True) for a in (2, 5)]
+        out += [dict(cls="local", nsteps=2, probe=i, _w=8) for i in range(3)]
         return out
     out = [dict(cls=c, nsteps=2, a1=a, a2=b, _w=8) for c in ("local", "base") for a in REP for b in REP]
     out += [dict(cls=c, nsteps=1, a1=a, upload=u) for c in ("local", "base") for a in range(NACT) for u in (False, True)]
+    out += [dict(cls="local", nsteps=2, probe=i, upload=u, _w=8) for i in range(3) for u in (False, True)]
     return out
 
 
